@@ -1,6 +1,48 @@
 """Checks that are not verifier proofs: exhaustive enumerations of finite sets read from the real source.
 Reported separately in the evidence (DESIGN section 4, C20)."""
+import assemble as A
+
+KEYWORDS = {"impl", "for", "fn", "let", "mut", "match", "type", "where", "as", "self", "_"}
+LIB_PATHS = {"core", "convert", "result", "Result", "From", "TryFrom", "Into", "TryInto", "o2o", "traits", "IntoExisting",
+             "TryIntoExisting", "Default", "default", "Ok", "Error"}
+METHODS = {"from", "try_from", "into", "try_into", "into_existing", "try_into_existing"}
+BINDERS = {"value", "other", "obj"}
+ALPHABET = KEYWORDS | LIB_PATHS | METHODS | BINDERS
+FORMAT_IDENT_PATTERNS = {'"f{}"'}
+
+
+def c20_alphabet():
+    """every literal identifier of every quote!/parse_quote!/format_ident! template in o2o-impl/src belongs to the fixed alphabet
+    (keywords, ::core::convert / ::core::result::Result / o2o::traits paths, Default::default, Ok, the six method names,
+    the binders value/self/other/obj).  Anything else - in particular `std` or `alloc` - is a violation."""
+    d = A.all_items()
+    viol = []
+    n_templates = 0
+    n_idents = 0
+    seen = set()
+    for t in d["templates"]:
+        n_templates += 1
+        if t["macro"] == "format_ident":
+            for l in t["lits"]:
+                if l not in FORMAT_IDENT_PATTERNS:
+                    viol.append({"obligation": "template-alphabet@%s:%d" % (t["file"], t["line"]), "props": ["C20"],
+                                 "message": "format_ident! pattern %s is not one of %s" % (l, sorted(FORMAT_IDENT_PATTERNS)),
+                                 "failing_input": None, "rendered": "%s:%d %s!(.. %s ..)" % (t["file"], t["line"], t["macro"], l)})
+            continue
+        for i in t["idents"]:
+            n_idents += 1
+            seen.add(i)
+            if i not in ALPHABET:
+                viol.append({"obligation": "template-alphabet@%s:%d" % (t["file"], t["line"]), "props": ["C20"],
+                             "message": "identifier `%s` in a %s! template is not in the alphabet of generated code" % (i, t["macro"]),
+                             "failing_input": None,
+                             "rendered": "%s:%d: %s!(.. %s ..) introduces the name `%s` into generated code" % (t["file"], t["line"], t["macro"], i, i)})
+    return viol, {"kind": "exhaustive enumeration (not a verifier proof)", "templates": n_templates, "literal_identifiers": n_idents,
+                  "distinct_identifiers": sorted(seen), "alphabet": sorted(ALPHABET), "exhaustive": True}
 
 
 def run(prop, tier):
+    if prop == "C20":
+        v, rep = c20_alphabet()
+        return {"violations": v, "report": {"template_alphabet": rep}}
     return {"violations": [], "report": {}}
